@@ -35,10 +35,10 @@ def races_in(log):
     return re.findall(r"WARNING: DATA RACE\n(?:.*\n){1,60}?={18}", log)
 
 
-def one_run(pid, d, tag, seed, tier, phases, skip, tr, budget, stats, race=False, tcp=False, threads=None, nops=None):
+def one_run(pid, d, tag, seed, tier, phases, skip, tr, budget, stats, race=False, tcp=False, threads=None, nops=None, focus=None):
     """Run the workload once and check every phase.  Returns list of violations."""
     out = Path(d) / tag
-    rc, log = conclib.run_workload(out, seed, tier, phases, skip, race=race, tcp=tcp, threads=threads, nops=nops)
+    rc, log = conclib.run_workload(out, seed, tier, phases, skip, race=race, tcp=tcp, threads=threads, nops=nops, focus=focus)
     viol = []
     status = {}
     if (out / "status.txt").exists():
@@ -56,6 +56,8 @@ def one_run(pid, d, tag, seed, tier, phases, skip, tr, budget, stats, race=False
         viol.append(dict(kind="data-race", report=r[:4000]))
     for ph in phases:
         if ph not in status:
+            continue
+        if focus and not (out / ph / "history.txt").exists():
             continue
         if status[ph] != "OK":
             v = conclib.hang_report(ph, out / ph)
@@ -145,6 +147,18 @@ def run(ctx, pid, phases, title, extra_tb, rule):
                 viol += v
                 if v:
                     break
+            # DESIGN 2.4 (b): an obligation names executors -> stress exactly those, looking for a
+            # failing history, within a time budget
+            named = sorted(set(m.split(":")[0] for m in bad if ":" in m and not m.startswith("obligation")) & set(tr["report"]))
+            if named and not viol:
+                import time as _t
+                t0 = _t.time()
+                i = 0
+                allph = ["counter", "list", "setnx", "multi", "setalg", "conserve", "book", "misc", "expiry"]
+                while not viol and _t.time() - t0 < (300 if thorough else 45):
+                    i += 1
+                    viol += one_run(pid, d, "focus%d" % i, ctx.seed + 31 * i, "quick", allph, skip, tr,
+                                    budget, stats, threads=8, focus=named)
             # samples for the evidence
             try:
                 ops, _, _ = conclib.read_phase(Path(d) / "q" / phases[0])
